@@ -229,6 +229,38 @@ def h_load_many_corrupt(ctx, fmt="xyz", nframes=3):
         ctx.oblige("frames-before-the-malformed-one-are-yielded", len(got) == k, cls=cls, detail=f"{len(got)}")
 
 
+def h_extxyz_mixed(ctx, order=(0, 1, 0)):
+    """Extended XYZ trajectory whose frames declare different per-atom columns: each frame as a single load."""
+    import iodata.api as api
+    mods = rt._fmt_modules("extxyz") + rt._fmt_modules("xyz")
+
+    def frame(k, kind):
+        x = [ctx.real(f"f{k}x{i}_{c}", lo=-90, hi=90, default=0.5 * i + c) for i in range(2) for c in range(3)]
+        if kind == 0:      # species only: the species column defines the elements
+            head = 'Properties=species:S:1:pos:R:3 comment="species only"'
+            lines = [f"O {x[0]:14.8f} {x[1]:14.8f} {x[2]:14.8f}", f"H {x[3]:14.8f} {x[4]:14.8f} {x[5]:14.8f}"]
+        else:              # species labels plus explicit atomic numbers
+            head = 'Properties=species:S:1:pos:R:3:Z:I:1 comment="labels and Z"'
+            lines = [f"OW {x[0]:14.8f} {x[1]:14.8f} {x[2]:14.8f} 8", f"HW {x[3]:14.8f} {x[4]:14.8f} {x[5]:14.8f} 1"]
+        return "2\n" + head + "\n" + "\n".join(lines) + "\n"
+    with stubbed(*mods):
+        texts = [frame(k, kind) for k, kind in enumerate(order)]
+        path = ctx.tmp_path("traj.extxyz")
+        ctx.write_text(path, "".join(texts))
+        got, err, _ = _load_all(api, path)
+        cls = f"extxyz,order={order}"
+        ctx.oblige("trajectory-loads", err is None, cls=cls, detail=f"{err} / {getattr(err, '__cause__', None)!r}")
+        ctx.oblige("same-number-of-frames", len(got) == len(order), cls=cls, detail=str(len(got)))
+        for i, t in enumerate(texts[:len(got)]):
+            p1 = ctx.tmp_path(f"single{i}.extxyz")
+            ctx.write_text(p1, t)
+            with warnings.catch_warnings(record=True):
+                warnings.simplefilter("always")
+                single = api.load_one(p1)
+            f, where = _same_obj(ctx, got[i], single)
+            ctx.oblige("frame-equals-single-load", f, cls=f"{cls},frame={i}", detail=where)
+
+
 def _corrupt_concrete(fmt, text, k):
     lines = text.splitlines(keepends=True)
     starts = []
@@ -277,6 +309,8 @@ def jobs(tier):
                        budget_s=300, max_validate=0, validate=False, max_paths=600))
         out.append(job("C13", f"load-many-corrupt[{fmt}]", M, "h_load_many_corrupt", dict(fmt=fmt, nframes=3),
                        budget_s=300, max_validate=3, max_paths=400))
+    for order in ((0, 1), (1, 0), (0, 1, 0)):
+        out.append(job("C13", f"extxyz-mixed-columns[{order}]", M, "h_extxyz_mixed", dict(order=list(order)), max_validate=2))
     out.append(job("C13", "dump-load-many[twin]", M, "h_dump_load_many", dict(fmt="xyz", nframes=2, twin=True),
                    expect="cex", max_validate=0, max_paths=50))
     return out
